@@ -1553,6 +1553,21 @@ impl DhtCoreEngine {
     }
 }
 
+/// Verification hooks (C02): read-only view of the routing-table entries.
+#[cfg(feature = "verif-hooks")]
+impl DhtCoreEngine {
+    /// Every routing-table entry, in bucket order.
+    pub async fn verif_routing_table_nodes(&self) -> Vec<NodeInfo> {
+        self.routing_table
+            .read()
+            .await
+            .buckets
+            .iter()
+            .flat_map(|b| b.nodes.iter().cloned())
+            .collect()
+    }
+}
+
 /// Verification hooks (C16): the crate-private peer selections of `store` / `retrieve`,
 /// callable with any count.
 #[cfg(feature = "verif-hooks")]
